@@ -21,7 +21,7 @@ def mutants(path, text):
     for i in range(end):
         l = lines[i]
         st = l.strip()
-        only_new = "--swap" in sys.argv or "--ror" in sys.argv
+        only_new = "--swap" in sys.argv or "--ror" in sys.argv or "--const" in sys.argv
         if not only_new and st.endswith(";") and not st.startswith(("let ", "use ", "//", "pub ", "type ", "return")) and "(" in st and l.startswith("    "):
             out.append(("del %d: %s" % (i + 1, st[:70]), "\n".join(lines[:i] + lines[i + 1:])))
         # swap two adjacent call statements of the same block (ordering mutants)
@@ -38,6 +38,18 @@ def mutants(path, text):
             for (a, b_) in ((" < ", " <= "), (" <= ", " < "), (" > ", " >= "), (" >= ", " > "), (" == ", " != "), (" != ", " == "), (" && ", " || "), (" || ", " && ")):
                 if a in l and "->" not in l and "::<" not in l:
                     out.append(("ror %d: %s [%s->%s]" % (i + 1, st[:60], a.strip(), b_.strip()), "\n".join(lines[:i] + [l.replace(a, b_, 1)] + lines[i + 1:])))
+        # constant / arithmetic replacement
+        if "--const" in sys.argv and l.startswith("    ") and not st.startswith(("//", "fn ", "pub ", "impl", "where", "use ", "#")):
+            for mm in re.finditer(r"(?<![\w.])(\d+)(?![\w.])", l):
+                n_ = int(mm.group(1))
+                for rep in sorted({n_ + 1, max(n_ - 1, 0)} - {n_}):
+                    out.append(("const %d: %s [%d->%d]" % (i + 1, st[:60], n_, rep), "\n".join(lines[:i] + [l[:mm.start(1)] + str(rep) + l[mm.end(1):]] + lines[i + 1:])))
+            for (a, b_) in (("true", "false"), ("false", "true")):
+                for mm in re.finditer(r"\b%s\b" % a, l):
+                    out.append(("const %d: %s [%s->%s]" % (i + 1, st[:60], a, b_), "\n".join(lines[:i] + [l[:mm.start()] + b_ + l[mm.end():]] + lines[i + 1:])))
+            for (a, b_) in ((" + ", " - "), (" - ", " + "), (" += ", " -= "), (" -= ", " += ")):
+                if a in l and "->" not in l and "'a" not in l and "Send" not in l:
+                    out.append(("arith %d: %s [%s->%s]" % (i + 1, st[:60], a.strip(), b_.strip()), "\n".join(lines[:i] + [l.replace(a, b_, 1)] + lines[i + 1:])))
         m = re.match(r"^(\s+)(\}? ?(?:else )?if )(!?)(.*) \{$", l)
         if m and "let " not in l and not only_new:
             cond = m.group(4)
